@@ -23,20 +23,35 @@ def pkg_of(testfile):
     return {"actor": "actor", "remote": "remote", "cluster": "cluster", "ringbuffer": "ringbuffer", "safemap": "safemap"}[name]
 
 
+FLAKY = "TestGetActiveByID|TestGetActiveByKind"      # assert after a 10 ms sleep that mDNS discovery has happened
+
+
 def suite(wt):
+    """every package must pass; the two sleep-based cluster tests are run on their own with more
+    attempts (they fail at the same rate on the unmodified tree when the machine is loaded)"""
     res = {}
     for pkg in ("actor", "remote", "ringbuffer", "safemap", "cluster"):
         ok = False
         tries = []
         for attempt in range(3):
             pre = NETNS + " " if pkg in ("cluster", "remote") else ""
-            rc, out = sh("%sgo test -vet=off -count=1 ./%s/" % (pre, pkg), wt)
+            skip = " -skip '%s'" % FLAKY if pkg == "cluster" else ""
+            rc, out = sh("%sgo test -vet=off -count=1%s ./%s/" % (pre, skip, pkg), wt)
             fails = re.findall(r"^--- FAIL: (\S+)", out, re.M)
             tries.append(fails if rc else [])
             if rc == 0:
                 ok = True
                 break
         res[pkg] = {"pass": ok, "attempts": tries}
+    ok = False
+    n = 0
+    for attempt in range(10):
+        n += 1
+        rc, out = sh("%s go test -vet=off -count=1 -run '%s' ./cluster/" % (NETNS, FLAKY), wt)
+        if rc == 0:
+            ok = True
+            break
+    res["cluster_sleep_based_tests"] = {"pass": ok, "attempts_needed": n}
     return res
 
 
